@@ -287,3 +287,16 @@ pub fn random_qmc(rng: &mut SplitMix64) -> QmcSpec {
     let state = (0..nvars).map(|_| rng.chance(1, 2)).collect();
     QmcSpec { nvars, bonds, state, loops: class == 0 || rng.chance(1, 4), hb: rng.chance(1, 3) }
 }
+
+/// switch the sampler's TapeRng log off (long statistical runs) by re-attaching a non-logging RNG through serde
+pub trait LoggingOff {
+    fn rng_logging_off(&mut self);
+}
+impl LoggingOff for IG {
+    fn rng_logging_off(&mut self) {
+        let mut v = serde_json::to_value(&*self).unwrap();
+        v["rng"]["logging"] = serde_json::json!(false);
+        v["rng"]["log"] = serde_json::json!([]);
+        *self = serde_json::from_value(v).unwrap();
+    }
+}
